@@ -1,6 +1,7 @@
 // C11: BasicRouteRuleTree (Insert via the real loader route_rule_conf.RouteConfLoad, then Get) vs model BasicRoute.v.
-// input : [rules queries]  rules=[[hosts paths cluster]..]  queries=[[host path]..]
-// output: Err(1) when the loader rejects the rule set, else [[cluster] | [] ...]
+// input : [mode rules queries]  rules=[[hosts paths cluster]..]  queries=[[host path]..]
+//         mode 0: through the loader (checks + Insert); mode 1: NewBasicRouteRuleTree + Insert directly (no checks)
+// output: Err(1) when the loader rejects the rule set, Err(2) when a direct Insert fails, else [[cluster] | [] ...]
 package main
 
 import (
@@ -40,10 +41,29 @@ func strs(v hv.Val) []string {
 
 func impl(in hv.Val) hv.Val {
 	top := hv.AsList(in)
+	mode := hv.AsInt(top[0])
+	top = top[1:]
 	rules := []ruleFile{}
 	for _, rv := range hv.AsList(top[0]) {
 		l := hv.AsList(rv)
 		rules = append(rules, ruleFile{strs(l[0]), strs(l[1]), hv.AsStr(l[2])})
+	}
+	if mode == 1 {
+		tree := route_rule_conf.NewBasicRouteRuleTree()
+		for k := range rules {
+			cl := rules[k].ClusterName
+			var hs, ps []string // nil when empty, as after JSON decoding of an absent field
+			if len(rules[k].Hostname) > 0 {
+				hs = append(hs, rules[k].Hostname...)
+			}
+			if len(rules[k].Path) > 0 {
+				ps = append(ps, rules[k].Path...)
+			}
+			if err := tree.Insert(&route_rule_conf.BasicRouteRuleFile{Hostname: hs, Path: ps, ClusterName: &cl}); err != nil {
+				return hv.Err(2)
+			}
+		}
+		return answers(tree, hv.AsList(top[1]))
 	}
 	// two decoy products are loaded next to "prod": a catch-all rule, and a copy of the same rules with other
 	// cluster names.  Every product has its own tree, so they must never influence the answers for "prod"
@@ -68,9 +88,12 @@ func impl(in hv.Val) hv.Val {
 	if err != nil {
 		return hv.Err(1)
 	}
-	tree := conf.BasicRuleTree["prod"]
+	return answers(conf.BasicRuleTree["prod"], hv.AsList(top[1]))
+}
+
+func answers(tree *route_rule_conf.BasicRouteRuleTree, queries hv.L) hv.Val {
 	out := hv.L{}
-	for _, q := range hv.AsList(top[1]) {
+	for _, q := range queries {
 		l := hv.AsList(q)
 		c, found := tree.Get(hv.AsStr(l[0]), hv.AsStr(l[1]))
 		if found {
@@ -124,6 +147,10 @@ func pathKey(p string) string {
 
 func gen(r *hv.Rng, i int, tier string) (string, hv.Val) {
 	class := "accepted"
+	mode := 0
+	if r.Chance(1, 4) {
+		mode = 1 // exported API without the loader's checks: unchecked patterns are allowed through
+	}
 	nRules := r.Range(0, 8)
 	if r.Chance(1, 6) {
 		nRules = r.Range(8, 20)
@@ -196,7 +223,7 @@ func gen(r *hv.Rng, i int, tier string) (string, hv.Val) {
 				h = "*"
 			case x == 17:
 				h = "*."
-			case x == 18 && r.Chance(1, 3):
+			case (x == 18 || (mode == 1 && x >= 20 && x <= 22)) && (mode == 1 || r.Chance(1, 3)):
 				h = r.Pick([]string{"*" + h, "a.*." + h, "*.*." + h, "", "**"})
 				class = "reject-host"
 			case x == 19:
@@ -229,8 +256,8 @@ func gen(r *hv.Rng, i int, tier string) (string, hv.Val) {
 				if len(es) > 0 {
 					p += "/"
 				}
-			case x == 24 && r.Chance(1, 3):
-				p = r.Pick([]string{"/fo*o", "", "/*/*", "*/"})
+			case x == 24 && (mode == 1 || r.Chance(1, 3)):
+				p = r.Pick([]string{"/fo*o", "", "/*/*", "*/", "**", "/a**"})
 				class = "reject-path"
 			case x == 25:
 				p = strings.TrimPrefix(p, "/") // no leading slash (accepted by the loader)
@@ -306,6 +333,9 @@ func gen(r *hv.Rng, i int, tier string) (string, hv.Val) {
 			ls[r.Intn(len(ls))] = r.Pick([]string{"*", ""})
 		}
 		h := strings.Join(ls, ".")
+		if r.Chance(1, 12) && len(ls) > 1 { // first label glued to the rest: "xa.com" against "*a.com" / "*.a.com"
+			h = ls[0] + strings.Join(ls[1:], ".")
+		}
 		if r.Chance(1, 30) {
 			h = ""
 		}
@@ -366,7 +396,10 @@ func gen(r *hv.Rng, i int, tier string) (string, hv.Val) {
 	if nRules == 0 {
 		class = "triv-empty"
 	}
-	return class, hv.L{rules, qs}
+	if mode == 1 {
+		class = "direct-" + class
+	}
+	return class, hv.L{hv.I(mode), rules, qs}
 }
 
 func main() {
